@@ -225,7 +225,23 @@ func (x *Exec) dumpLoad(op GenOp, lo *LogOp) {
 		w2.NewEntity()
 		w2.Reset()
 	}
-	w2.Unsafe().LoadEntities(&d)
+	// DumpCopy: every world loads its own deserialised copy of the dump, as worlds living in different processes
+	// would (C12: the outcome must not depend on whether the worlds share a process and with it the dump object)
+	dumpFor := func() *ecs.EntityDump {
+		if !x.Cfg.DumpCopy {
+			return &d
+		}
+		b, err := json.Marshal(&d)
+		if err != nil {
+			panic(err)
+		}
+		c := ecs.EntityDump{}
+		if err := json.Unmarshal(b, &c); err != nil {
+			panic(err)
+		}
+		return &c
+	}
+	w2.Unsafe().LoadEntities(dumpFor())
 	for _, h := range x.issued {
 		if w2.Alive(h) {
 			lo.Alive2 = append(lo.Alive2, h)
@@ -244,7 +260,7 @@ func (x *Exec) dumpLoad(op GenOp, lo *LogOp) {
 	}
 	w2.NewEntity()
 	w3 := ecs.NewWorld(x.Cfg.Caps...)
-	w3.Unsafe().LoadEntities(&d)
+	w3.Unsafe().LoadEntities(dumpFor())
 	for _, h := range x.issued {
 		if w3.Alive(h) {
 			lo.Alive3 = append(lo.Alive3, h)
@@ -481,6 +497,7 @@ type Config struct {
 	Observers int      `json:"observers"` // driver: max simultaneously registered observers (0 = none)
 	ResetP    int      `json:"resetp"`    // driver: per-mille probability of World.Reset / DumpLoad per step
 	RegLocked bool     `json:"reglocked"` // driver: attempts to register a new component type while the world is locked
+	DumpCopy  bool     `json:"dumpcopy"`  // DumpLoad: every load gets its own deserialised copy of the dump (another process)
 	ResP      int      `json:"resp"`      // driver: per-mille probability of a resource operation per step
 	TypedObs  bool     `json:"typedobs"`  // register observers through Observer1..4 where the observed set allows
 	Arity     bool     `json:"arity"`     // driver: draw component sets from the instantiated tuples of all arities
